@@ -181,7 +181,9 @@ CLAIMED = {
              "printed by str is read back by float as the same value - the integer counterpart int(str(i)) == i is a theorem "
              "about the model's printer and parser, intRoundTrip / readInt_repr): definition_roundtrip(_main) - for every definition in the regime DefWF, "
              "loadXtce (toXml d) = d: parameter types (class, unit, encoding with default and context calibrators, criteria in "
-             "all three forms nested to any depth, length specification with adjustment, integer enumerations), parameters "
+             "all three forms nested to any depth, length specification with adjustment; string encodings in any of the ten "
+             "codecs with fixed, parameter-referenced or looked-up size and a leading size or a termination character; "
+             "integer enumerations; time types with epoch, offset reference, units and scale/offset), parameters "
              "(type reference, descriptions), containers (entry order, base container, restriction criteria, abstract flag, "
              "descriptions, inheritor lists), header date, space-system name, namespace. It is assembled from the element-level "
              "theorems (comparison/condition/boolexpr, polynomial/spline, discrete lookup, context calibrator, int/float/binary/"
@@ -192,9 +194,9 @@ CLAIMED = {
              "computes exactly the `basedOn` lists). DefWF is the shape a load produces (keys are names and unique, containers "
              "in dependency order, back-populated inheritors, tables in cache order) with every element inside the regime of "
              "its element-level theorem; a concrete instance (exDef_wf) is proved to satisfy it and its round trip is also "
-             "computed by the kernel. Outside the regime (not theorems; decided by the correspondence): string encodings with "
-             "multi-byte codecs, termination characters or looked-up sizes, time types, float- or string-keyed enumerations, "
-             "definitions whose tables are not yet in load order (first cycle of an object-assembled definition), and the "
+             "computed by the kernel. Outside the regime (not theorems; decided by the correspondence): float- or string-keyed "
+             "enumerations, time types on string or binary encodings, string encodings carrying both a leading size and a "
+             "termination character, definitions whose tables are not yet in load order (first cycle of an object-assembled definition), and the "
              "equality of decoding - definitions built both ways go through write/load/write/load/write on model and "
              "library, every stage is compared, and an independent by-name structural comparison (incl. length adjustments) "
              "plus identical decoding of random packets is the oracle.",
